@@ -58,7 +58,7 @@ def _spec(module):
         from . import own, parse
         return [{
             'units': {'cJSON.c': 'own_bad.c', 'cJSON_Utils.c': 'utils_min.c'},
-            'rules': [lambda units, R: own.own_engine(units, R), own.own5, own.del1, own.own6, own.own7, own.own8,
+            'rules': [lambda units, R: own.own_engine(units, R), own.own5, own.del1, own.own6, own.own7, own.own8, own.own9,
                       lambda units, R: own.own4_dangling(units, R, unit_names=('cJSON.c',)),
                       lambda units, R: own.dbl1(units, R, unit_names=('cJSON.c',)), parse.tab17],
         }]
